@@ -858,5 +858,6 @@ func genC17(c *Ctx) {
 	c.Exhaustive = true
 	c17SelectBlock(c)
 	c17AnyOfBlock(c)
+	c05ManyCandidates(c) // AnyOf with many candidates: the answer does not depend on how many there are
 	c17AggregateBlock(c)
 }
